@@ -10,7 +10,7 @@ import vlib
 
 CLAUSES = {
     "C01": {"outcome_for_unknown", "outcome_twice", "outcome_missing_at_close", "close_returns", "channels_closed",
-            "input_accepts", "no_panic"},
+            "input_accepts", "no_panic", "sync_return_matches"},
     "C12": {"close_returns", "channels_closed", "input_accepts", "no_panic"},
     "C02": {"log_order", "success_offset_order"},
     "C04": {"success_offset_holds_message", "success_partition_is_chosen", "nothing_foreign_appended",
@@ -236,6 +236,32 @@ def family_routing():
     return out
 
 
+def family_sync(idem):
+    """SyncProducer: SendMessage from several goroutines and SendMessages batches over the fault kinds"""
+    out = []
+    for fname, plan in FAULT_KINDS[:8] + [("ok", {})]:
+        for rmax in ((1, 3) if idem else (0, 1, 3)):
+            cfg = dict(sync=True, idem=idem, retryMax=rmax, leaders=[1, 1], nbrokers=1)
+            p = dict(copy.deepcopy(plan), hold=True)
+            steps = [{"op": "submit", "id": 1, "part": 0}, {"op": "submit", "id": 2, "part": 1}, {"op": "wait_req", "n": 1, "ms": 800},
+                     {"op": "submit", "id": 3, "part": 0}, {"op": "release", "n": 1}, {"op": "wait_outcomes", "n": 3, "ms": 3000},
+                     {"op": "batch_add", "id": 4, "part": 0}, {"op": "batch_add", "id": 5, "part": 1}, {"op": "batch_add", "id": 6, "part": 0},
+                     {"op": "batch_send"}, {"op": "wait_outcomes", "n": 6, "ms": 3000}]
+            out.append(sc("sync-%s-r%d" % (fname, rmax), "sync", cfg, steps, {"1": p, "3": copy.deepcopy(plan)}))
+    return out
+
+
+def family_create_unreachable():
+    """creating an idempotent producer while the cluster does not answer InitProducerID must fail with an
+    error (or succeed later), never panic or hang"""
+    out = []
+    for fault in ("drop", "silence", "err"):
+        for nb in (1, 2):
+            cfg = dict(idem=True, retryMax=1, leaders=[1], nbrokers=nb, initPidFault=fault, readTimeoutMs=100)
+            out.append(sc("create-%s-b%d" % (fault, nb), "create", cfg, [{"op": "close"}]))
+    return out
+
+
 def family_overflow(idem):
     """a message waits for space (Flush.MaxMessages / request size reached while a request is in flight)
     and the in-flight request then fails: the waiting message must not overtake the bounced ones"""
@@ -368,7 +394,7 @@ def run_scenarios(ctx, scenarios, name="prod", shards=8, timeout=1500):
         for s in scenarios:
             f.write(json.dumps(s) + "\n")
     rc, out, trace, sums = ctx.go_test_parallel("^TestVerifProducer$", cases, nproc=12, timeout=timeout, name=name,
-                                                only=["sim_cluster*", "sim_fetch*", "prod_driver*"])
+                                                only=["sim_cluster*", "sim_fetch*", "prod_driver*", "prod_sync*"])
     crash = []
     if rc != 0 and ("panic: " in out or "fatal error: " in out):
         crash = vlib.crash_violations(out)
